@@ -24,6 +24,36 @@ pub fn replay_file(path: &str) -> i32 {
     };
     let prop = doc["property"].as_str().unwrap_or("?").to_string();
     let case = &doc["case"];
+    if case["kind"] == "process-crash" {
+        // re-run the whole check in a child process: reproduced iff it dies the same way
+        use std::os::unix::process::ExitStatusExt;
+        let exe = std::env::current_exe().expect("exe");
+        let scratch = std::env::temp_dir().join(format!("wfv-replay-{}", std::process::id()));
+        let _ = std::fs::create_dir_all(&scratch);
+        let st = std::process::Command::new(exe)
+            .args(["check", &prop, "--tier", doc["tier"].as_str().unwrap_or("quick")])
+            .env("WFV_INNER", "1")
+            .env("WFV_QUIET", "1")
+            .env("WFV_VERIF_DIR", &scratch)
+            .env("VERIF_SEED", doc["seed"].as_u64().unwrap_or(0).to_string())
+            .env_remove("VERIF_TIER")
+            .status();
+        let _ = std::fs::remove_dir_all(&scratch);
+        return match st {
+            Ok(st) if st.signal().map(|s| s as u64) == case["signal"].as_u64() => {
+                println!("REPRODUCED property={prop} the checking process died again with signal {}", case["signal"]);
+                1
+            }
+            Ok(st) => {
+                println!("NOT-REPRODUCED property={prop}: the check ran to completion ({st})");
+                0
+            }
+            Err(e) => {
+                eprintln!("cannot replay: {e}");
+                2
+            }
+        };
+    }
     match replay_case(&prop, case) {
         Ok(n) if n > 0 => {
             println!("REPRODUCED property={prop} ({n} violation(s)) {}", doc["what"].as_str().unwrap_or(""));
